@@ -11,6 +11,7 @@ ID = 'C05'
 TECHNIQUE = 'runtime monitor: CPU-time bound per regex builtin call with a parent-side hard watchdog reading /proc CPU before killing'
 BOUND_CONST, BOUND_PER_PATTERN_CHAR, BOUND_PER_SUBJECT_CHAR = 0.6, 50e-6, 5e-6
 RULE = '(function, pattern, subject, flags[, extra arguments]) with function in {match, match_groups, match_all}; pattern families: nested and overlapping quantifiers, alternations, counted repeats, (a?){n}a{n}, back-references, lookaround with quantified bodies, atomic/possessive groups, recursion, fuzzy and reverse matching, POSIX and V1 set operations, group-less adjacent quantifiers, many moderately expensive matches / sub-timeout segments in one subject, long literals / alternations / classes (<= 20000 chars), random compositions; adversarial subjects of 10 .. 10^5 chars; flag strings: every single letter, pairs, i/m/s combinations, garbage, long strings of flag letters with an invalid tail, None; 4th/5th arguments; sequences of 2-5 regex calls in ONE evaluation (costly-to-compile harmless patterns first, a catastrophic one last). Bound: CPU <= 0.60 s + 50 us x len(pattern) + 5 us x len(subject) per call (sum for a sequence). Non-trivial = the call (sequence) was timed against the bound; distinct = distinct (function, pattern, subject length, flags).'
+RULE += ' Sequences also place a call that runs into the timeout (swallowed by the host callback) before - also directly before - the last call; a third of the single calls pass the subject or the pattern as a str subclass that reports a length of its own (10^10 or 0).'
 ASSUMPTIONS = ['CPU time of the calling thread (not wall time) is the measure; a case killed by the hard watchdog is a violation only if the worker had burnt more CPU than the bound',
                'the bound has >= 3x head-room over everything measured on the unchanged tree (catastrophic patterns abort after 0.05-0.17 s CPU; compile <= 17 us/char)',
                'pattern length <= 20000 characters']
